@@ -435,14 +435,20 @@ func (c *Ctx) loopHead(fr *Frame, li *loopInfo, b *ssa.BasicBlock, st *State, re
 	if eff.all {
 		c.notes["loop-havoc-all: "+eff.why]++
 	}
+	for _, m := range eff.mat {
+		m(c, st)
+	}
+	c.touchAll(st)
+	before := st.clone()
 	c.havocEffects(st, eff, reach)
 	// 2b. frame invariant derived from the function's `modifies` clause: the loop changes nothing else
-	if fr.isRoot && c.contract != nil && c.contract.HasMod && !c.contract.Pure {
-		names := paramNames(fr.fn)
-		c.frameConds(c.contract, names, c.entryArgs, st, func(detail, cond, expr, eq string) {
-			c.registerForallFrame(eq)
-			c.assume(reach, eq)
-		})
+	if c.loopTop == nil {
+		c.loopTop = map[int]string{}
+	}
+	c.loopTop[li.header] = c.top
+	if fr.isRoot && c.contract != nil && c.contract.HasMod && !c.contract.Pure && !eff.all {
+		c.frameTop = c.top
+		c.loopFrameHavoc(c.contract, paramNames(fr.fn), c.entryArgs, before, st, reach, pos, li.ordinal, loopAllocKeys(fr.fn, li.blocks))
 	}
 	// 3. assume invariants
 	env = c.contractEnvLocal(fr, st)
@@ -658,7 +664,8 @@ func (c *Ctx) loopBack(fr *Frame, li *loopInfo, st *State, reach string, pos tok
 	}
 	if fr.isRoot && c.contract != nil && c.contract.HasMod && !c.contract.Pure {
 		names := paramNames(fr.fn)
-		c.groupedFrame("inv-pres", fmt.Sprintf("loop%d/frame:", li.ordinal), c.contract, names, c.entryArgs, st, reach, pos, "loop preserves the frame")
+		c.frameTop = c.loopTop[li.header]
+		c.groupedFrame("inv-pres", fmt.Sprintf("loop%d/frame:", li.ordinal), c.contract, names, c.entryArgs, st, reach, pos, "loop preserves the frame", true)
 	}
 	for _, cd := range c.hcands[li.header] {
 		v := c.load(st, PtrV{Kind: 0, Alloc: cd.a, Elem: cd.a.Type().(*types.Pointer).Elem()}).(Sc).T
